@@ -6,6 +6,8 @@ import FalconProofs.C15.Copy
 import FalconProofs.C15.MergeRound
 import FalconProofs.C15.AppendView
 import FalconProofs.C15.MergeTotal
+import FalconProofs.C15.NoPanic
+import FalconProofs.C15.CopyTotal
 
 namespace Falcon.C15
 open Falcon Falcon.CfgEdit
@@ -198,8 +200,52 @@ theorem insert_disjoint {c d c' : Cfg} {en ex : Nat} (hd : WF d) (h : CfgEdit.in
     · simp at h
   · simp at h
 
-/-- non-vacuity: a history with a merge that merges, an append and an insert -/
+/-- **append_ok** — on well-formed graphs `append` fails only in the documented cases: it returns `Ok` whenever the
+    source has entry and exit and the destination is empty or has entry and exit (fresh indices never collide,
+    copied edges and the transition edge are never duplicates). -/
+theorem append_ok {c d : Cfg} (hw : WF c) (hd : WF d) (hen : d.entry.isSome = true) (hex : d.exit.isSome = true)
+    (hc : c.blocks = [] ∨ (c.entry.isSome = true ∧ c.exit.isSome = true)) : (CfgEdit.append c d).res = .ok () := by
+  obtain ⟨den, hden⟩ := Option.isSome_iff_exists.mp hen
+  obtain ⟨dex, hdex⟩ := Option.isSome_iff_exists.mp hex
+  exact append_total hw hd hden hdex hc
+
+/-- **insert_ok** — on well-formed graphs `insert` returns `Ok` whenever the source has entry and exit. -/
+theorem insert_ok {c d : Cfg} (hw : WF c) (hd : WF d) (hen : d.entry.isSome = true) (hex : d.exit.isSome = true) :
+    ∃ p, (CfgEdit.insert c d).res = .ok p := by
+  obtain ⟨den, hden⟩ := Option.isSome_iff_exists.mp hen
+  obtain ⟨dex, hdex⟩ := Option.isSome_iff_exists.mp hex
+  exact insert_total hw hd hden hdex
+
+/-- **history_no_panic** — in every history that starts from `ControlFlowGraph::new()` no call panics
+    (`block_map[&…]` in `append`/`insert`, `edges_in(successor).unwrap()` in `merge` always succeed, because the
+    graphs they read are well formed by `ops_wf`); so the convention "a panicking call leaves the graphs
+    unchanged" of `run` is never exercised. -/
+theorem history_no_panic (ops : List EditOp) (o : EditOp) : (run (runAll ops) o).2 ≠ .panic := by
+  have h := step_no_panic (runAll ops) (ops_wf ops) o
+  unfold run
+  dsimp only
+  split
+  · rename_i hp; exact absurd hp h
+  · rename_i hnp; exact fun hp => hnp hp
+
+-- non-vacuity ------------------------------------------------------------------------------------------
+
+/-- a history with a merge that merges, an append and an insert -/
 example : WF (runAll [.newBlock 0, .newBlock 0, .uedge 0 0 1, .entry 0 0, .exit 0 1, .op 0 1 .nop,
     .merge 0, .append 1 0, .insert 2 1] 2) := ops_wf _ 2
+
+/-- the graph `0 → 1` (entry 0, exit 1, one instruction in block 1) -/
+def exG : Cfg := runAll [.newBlock 0, .newBlock 0, .uedge 0 0 1, .entry 0 0, .exit 0 1, .op 0 1 .nop] 0
+
+/-- `merge` selects the pair (0, 1) on it, the pair is valid, the step succeeds and really merges -/
+example : collect exG exG.blocks [] = .ok [(0, 1)] := by decide
+example : ValidPair exG 0 1 := (merge_selects_valid_pairs (c := exG) (ms := [(0, 1)]) (by decide)).1 (0, 1) (by simp)
+example : (mergeStep exG 0 1).res = .ok () ∧ (mergeStep exG 0 1).cfg.blocks.length = 1 ∧
+    (mergeStep exG 0 1).cfg.exit = some 0 := by decide
+
+/-- `append` of it to itself succeeds (non-empty destination), and to the empty graph -/
+example : (CfgEdit.append exG exG).res = .ok () ∧ exG.blocks ≠ [] := by decide
+example : (CfgEdit.append CfgEdit.new exG).res = .ok () := by decide
+example : ∃ p, (CfgEdit.insert exG exG).res = .ok p := ⟨(2, 3), by decide⟩
 
 end Falcon.C15
